@@ -311,6 +311,36 @@ def rate_test_call_trees(ctx, rate, ncalls, seed):
                             f"rate {rate}: {got} of {n} calls of {fn} traced (it is called from / calls other traced functions), acceptance interval [{lo}, {hi}]", raise_=False)
 
 
+def _total_ge(xs):
+    return sum(x for x in xs)  # the generator expression's frames cannot be resolved to a function
+
+
+def _after_ge(i):
+    return i
+
+
+def rate_test_unresolvable(ctx, rate, ncalls, seed):
+    """calls that follow frames the tracer cannot resolve to a function (a generator expression, an inline lambda): decisions
+    are independent - what happened to an unresolvable frame neither forces nor spares the next call"""
+    lg = CountBy()
+    random.seed(seed)
+    here = _total_ge.__code__.co_filename
+    with trace_calls(lg, 0, lambda c: c.co_filename == here and c.co_name in ("_total_ge", "_after_ge", "<genexpr>", "<lambda>"), rate):
+        for i in range(ncalls):
+            _total_ge([i, 1])
+            _after_ge(i)
+            (lambda q: q)(i)
+            _after_ge(i)
+    spec = ["RATEUNRESOLVABLE", rate, ncalls, seed]
+    ctx.case(spec, True, ["rate-workload-after-unresolvable-frames:%s" % rate])
+    for fn, n in (("_total_ge", ncalls), ("_after_ge", 2 * ncalls)):
+        got = lg.by.get(fn, 0)
+        lo, hi = interval(n, 1.0 / rate)
+        if not lo <= got <= hi:
+            return ctx.fail("C18/traced-fraction-outside-binomial-bounds", spec,
+                            f"rate {rate}: {got} of {n} calls of {fn} traced (its calls follow frames of a generator expression / an inline lambda), acceptance interval [{lo}, {hi}]", raise_=False)
+
+
 def _make_primed(n):
     def local_gen(x):
         yield x
@@ -552,6 +582,7 @@ def shard(ctx):
             rate_test_primed_generators(ctx, r, n // 8, ctx.seed * 1000 + s + 41)
             if r not in (None, 1):
                 rate_test_call_trees(ctx, r, n // 4, ctx.seed * 1000 + s + 37)
+                rate_test_unresolvable(ctx, r, n // 4, ctx.seed * 1000 + s + 41)
                 rate_test_sessions(ctx, r, 3000 if q else 20000, ctx.seed * 1000 + s + 29)
             rate_test_same_config(ctx, [RATES[(i + j) % len(RATES)] for j in range(3)], n // 8, ctx.seed * 1000 + s + 31)
             async_generators(ctx, r, 300 if q else 3000, ctx.seed * 1000 + s + 17)
@@ -571,6 +602,8 @@ def replay(ctx, case):
         return rate_test(ctx, case[1], case[2], case[3])
     if case[0] == "RATEPRIMED":
         return rate_test_primed_generators(ctx, case[1], case[2], case[3])
+    if case[0] == "RATEUNRESOLVABLE":
+        return rate_test_unresolvable(ctx, case[1], case[2], case[3])
     if case[0] == "RATETREES":
         return rate_test_call_trees(ctx, case[1], case[2], case[3])
     if case[0] == "RATESESSIONS":
